@@ -9,7 +9,8 @@ P_SWITCH = (0.0, 0.01, 0.05, 0.15, 0.4)
 
 def draw_knobs(r, **over):
     kn = {"p_switch": r.choice(P_SWITCH), "cost_ns": r.choice((200, 1000, 20000)),
-          "clock_step_ns": r.choice((500, 2000, 50000)), "stall_p": r.choice((0.0, 0.0, 0.002, 0.01))}
+          "clock_step_ns": r.choice((500, 2000, 50000)), "stall_p": r.choice((0.0, 0.0, 0.002, 0.01)),
+          "trace_self": r.random() < 0.3}
     kn.update(over)
     return kn
 
@@ -33,6 +34,8 @@ def run_in_kernel(ch, knobs, main_fn):
     # the collector must not run at a moment the simulator does not control
     gc.collect()
     gc.disable()
+    from . import shims
+    shims.TRACE_SEAM.visible = seams.VISIBLE_FULL if (knobs or {}).get("trace_self", True) else seams.VISIBLE_HOST
     try:
         k.run(lambda: main_fn(k))
     finally:
